@@ -21,6 +21,7 @@
 #include "celeritas/track/SimParams.hh"
 #include "celeritas/em/params/UrbanMscParams.hh"
 #include "celeritas/em/process/ComptonProcess.hh"
+#include "celeritas/em/process/EPlusAnnihilationProcess.hh"
 #include "celeritas/em/process/GammaConversionProcess.hh"
 #include "celeritas/geo/GeoMaterialParams.hh"
 #include "celeritas/global/alongstep/AlongStepGeneralLinearAction.hh"
@@ -165,8 +166,6 @@ class P3 : public P1
   public:
     explicit P3(ProblemConfig c) : P1(with_pos(c)), cfg3_(c)
     {
-        // unit-test-only debugging action; it rejects this problem's action order
-        this->disable_status_checker();
     }
 
   protected:
@@ -239,11 +238,16 @@ class P3 : public P1
             lambda.table_type = ImportTableType::lambda;
             lambda.x_units = ImportUnits::mev;
             lambda.y_units = ImportUnits::len_inv;
+            // zero at the threshold: below the grid the calculator clamps to the first
+            // value, and a gamma under 2 m_e c^2 must never select conversion (no model
+            // applies there: select_discrete_interaction would read an invalid model id)
             lambda.physics_vectors = {
-                {ImportPhysicsVectorType::log, {2 * electron_mass, 1e8}, {0.3, 0.3}},
                 {ImportPhysicsVectorType::log,
-                 {2 * electron_mass, 1e8},
-                 {1e-10, 1e-10}},
+                 {2 * electron_mass, 2.5 * electron_mass, 1e8},
+                 {0, 0.3, 0.3}},
+                {ImportPhysicsVectorType::log,
+                 {2 * electron_mass, 2.5 * electron_mass, 1e8},
+                 {0, 1e-10, 1e-10}},
             };
             conv.tables.push_back(std::move(lambda));
         }
@@ -417,8 +421,65 @@ class P4 : virtual public test::GlobalGeoTestBase, public test::OnlyCoreTestBase
         return result;
     }
 
-  private:
+  protected:
     ProblemConfig cfg_;
+};
+
+//! P5: as P4 without MSC, plus the REAL positron annihilation process (valid at rest):
+//! positrons slow down (pure continuous loss), stop and annihilate at rest; with a
+//! starved secondary stack a stopped positron can survive a failed annihilation and
+//! must retry it in a zero-length step
+class P5 : public P4
+{
+  public:
+    explicit P5(ProblemConfig c) : P4(c) {}
+
+  protected:
+    SPConstPhysics build_physics() override
+    {
+        using Barn = test::MockProcess::BarnMicroXs;
+        PhysicsParams::Input physics_inp;
+        physics_inp.materials = this->material();
+        physics_inp.particles = this->particle();
+        physics_inp.action_registry = this->action_reg().get();
+        physics_inp.options.min_range = 1e-3 * units::centimeter;
+        physics_inp.options.secondary_stack_factor = cfg_.stack_factor;
+        auto make_applic = [this](PDGNumber pdg) {
+            Applicability result;
+            result.particle = this->particle()->find(pdg);
+            result.lower = units::MevEnergy{1e-5};
+            result.upper = units::MevEnergy{100};
+            return result;
+        };
+        test::MockProcess::Input inp;
+        inp.materials = this->material();
+        inp.interact = [](ActionId) {};
+        inp.label = "slowing-down";
+        inp.use_integral_xs = false;
+        inp.applic = {make_applic(pdg::electron())};
+        inp.xs = {Barn{0}, Barn{1e-6}, Barn{1e-6}};
+        inp.energy_loss = test::MevCmSqLossDens{2e-21};
+        physics_inp.processes.push_back(
+            std::make_shared<test::MockProcess>(inp));
+        // positron: continuous loss only (no discrete mock model to be selected)
+        inp.label = "slowing-down-plus";
+        inp.applic = {make_applic(pdg::positron())};
+        inp.xs = {};
+        physics_inp.processes.push_back(
+            std::make_shared<test::MockProcess>(inp));
+        EPlusAnnihilationProcess::Options aopts;
+        physics_inp.processes.push_back(
+            std::make_shared<EPlusAnnihilationProcess>(this->particle(), aopts));
+        return std::make_shared<PhysicsParams>(std::move(physics_inp));
+    }
+    SPConstAction build_along_step() override
+    {
+        auto& action_reg = *this->action_reg();
+        auto result = std::make_shared<AlongStepGeneralLinearAction>(
+            action_reg.next_id(), nullptr, nullptr);
+        action_reg.insert(result);
+        return result;
+    }
 };
 
 }  // namespace verif
